@@ -632,11 +632,288 @@ Proof.
   intros Hx. destruct t; cbn in Hx; try discriminate; fl_in Hx; cbn in Hx;
     destruct (is_C L) eqn:EC; try discriminate; inv Hx; cbn [opstr hc];
     rewrite ?Seq, ?Sneq, ?Slt, ?Sleq, ?Sgt, ?Sgeq, ?Sand, ?Sor, ?Splus, ?Sminus, ?Stimes, ?Sdivide, ?EC;
-    (split; [discriminate|split; [reflexivity|split; [reflexivity|]]]); intros c X Hc;
-    first [ apply lex_eqeq | apply lex_ne | apply lex_lt | apply lex_le | apply lex_gt | apply lex_ge
-          | apply lex_andand; exact EC | apply lex_oror; exact EC | apply lex_star | apply lex_slash
-          | (apply lex_plus_step; cbn; apply negb_true_iff in Hc; exact Hc)
-          | (apply lex_minus_step; intros HC; cbn; apply negb_true_iff in Hc; rewrite HC in Hc; exact Hc) ].
+    (split; [discriminate|split; [reflexivity|split; [reflexivity|]]]); intros c X Hc.
+  - apply lex_eqeq.
+  - apply lex_ne.
+  - apply lex_lt.
+  - apply lex_le.
+  - apply lex_gt.
+  - apply lex_ge.
+  - apply lex_andand; exact EC.
+  - apply lex_oror; exact EC.
+  - apply lex_plus_step; cbn; apply negb_true_iff in Hc; exact Hc.
+  - apply lex_plus_step; cbn; apply negb_true_iff in Hc; exact Hc.
+  - apply lex_minus_step; intros HC; cbn; cbn in Hc; apply negb_true_iff in Hc; exact Hc.
+  - apply lex_minus_step; intros HC; congruence.
+  - apply lex_star.
+  - apply lex_star.
+  - apply lex_slash.
+  - apply lex_slash.
+Qed.
+
+Lemma lg_unsafe a : safe a = false -> LG a.
+Proof. intros H Hs. rewrite H in Hs. discriminate. Qed.
+
+Lemma lg_fun1 t v l r f : fun1_name p t = Some f -> LG l -> LG (Node t v l r).
+Proof.
+  intros Hk Hl Hs. destruct (kind_fun1 L p HF t v l r f Hk) as (Eg & _ & _ & _ & Hsafe).
+  rewrite (gen_fun1 _ _ _ _ _ Hk), Eg. eapply lxp_open. apply lxp_call1; [exact (Vf1 _ _ Hk)|apply Hl; auto].
+Qed.
+
+Lemma lg_fun2 t v l r f : fun2_name p t = Some f -> LG l -> LG r -> LG (Node t v l r).
+Proof.
+  intros Hk Hl Hr Hs. destruct (kind_fun2 L p HF t v l r f Hk) as (Eg & _ & _ & _ & Hsafe).
+  destruct (Hsafe Hs) as [Hsl Hsr].
+  rewrite (gen_fun2 _ _ _ _ _ Hk), Eg. eapply lxp_open. apply lxp_call2; [exact (Vf2 _ _ Hk)|apply Hl; auto|apply Hr; auto].
+Qed.
+
+Lemma starts_hd s : starts_with "-" s = hd_is "-" s.
+Proof.
+  destruct s as [|c s]; [reflexivity|]. unfold starts_with. cbn [prefix_drop hd_is].
+  rewrite (Ascii.eqb_sym "-" c). destruct (Ascii.eqb c "-"); reflexivity.
+Qed.
+
+Lemma lg_infix t v l r tok op q :
+  infix_info p t = Some (tok, op, q) -> is_nil r = false -> LG l -> LG r -> LG (Node t v l r).
+Proof.
+  intros Hi Hr Hl HR Hs.
+  destruct (kind_infix L p HF t v l r tok op q Hi Hr) as (Eg & _ & _ & _ & _ & Hsafe).
+  destruct (Hsafe Hs) as (Hsl & Hsr & Hbo).
+  rewrite (gen_infix _ _ _ _ _ _ _ Hi Hr), Eg.
+  destruct (opstr_ok _ _ _ _ Hi) as (O1 & O2 & O3 & O4).
+  pose proof (HR Hsr) as LR. pose proof (Hl Hsl) as LL.
+  eapply lxp_open.
+  eapply lxp_binop with (hc := hc t);
+    [apply lxp_wrap; exact LL|apply lxp_wrap; exact LR|exact O1|exact O2|exact O3|exact O4|].
+  destruct (paren_right p t l r (gen p r)) eqn:EPR; cbn [wrap parens].
+  - exists "("%char. eexists. split; [reflexivity|].
+    destruct t; try reflexivity. cbn. rewrite andb_false_r. reflexivity.
+  - destruct LR as (Hh & _ & _). destruct (gen p r) as [|c s'] eqn:Eg2; [discriminate|].
+    exists c, s'. split; [reflexivity|].
+    destruct t; try reflexivity.
+    + (* PLUS *) cbn. destruct (head_ok_not_eq _ _ Hh) as [_ Hp]. rewrite Hp. reflexivity.
+    + (* MINUS *) cbn [hc]. cbn [paren_right] in EPR. rewrite Sminus in EPR.
+      apply orb_false_iff in EPR. destruct EPR as [EPR _].
+      apply orb_false_iff in EPR. destruct EPR as [_ EPR].
+      rewrite starts_hd in EPR. cbn in EPR. rewrite EPR, andb_false_r. reflexivity.
+Qed.
+
+Lemma lg_ci v l r : LG (Node CI v l r).
+Proof. intros Hs. cbn [safe_b] in Hs. cbn [gen GenTok.gent]. apply lxp_ident. exact Hs. Qed.
+
+Lemma cn_split v :
+  double_code v = if cn_neg v then "-" ++ cn_body v else cn_body v.
+Proof.
+  unfold cn_neg, cn_body. rewrite starts_hd. destruct (double_code v) as [|c s]; [reflexivity|].
+  cbn. destruct (Ascii.eqb c "-") eqn:E; [|reflexivity]. apply Ascii.eqb_eq in E. subst c. reflexivity.
+Qed.
+
+Lemma lg_cn v l r : LG (Node CN v l r).
+Proof.
+  intros Hs. cbn [safe_b] in Hs. unfold cn_ok in Hs. apply andb_prop in Hs. destruct Hs as [_ Hb].
+  cbn [gen GenTok.gent]. rewrite cn_split. destruct (cn_neg v).
+  - apply lxp_neg; [apply lxp_num; exact Hb|]. intros _.
+    unfold num_body_ok in Hb. destruct (cn_body v) as [|c s]; [discriminate|].
+    apply andb_prop in Hb. destruct Hb as [Hb _]. apply andb_prop in Hb. destruct Hb as [Hd _]. cbn.
+    destruct c as [b0 b1 b2 b3 b4 b5 b6 b7].
+    destruct b0, b1, b2, b3, b4, b5, b6, b7; cbn in Hd; try discriminate; reflexivity.
+  - apply lxp_num. exact Hb.
+Qed.
+
+Lemma lg_uplus v l r : is_nil r = true -> LG l -> LG (Node PLUS v l r).
+Proof.
+  intros Hr Hl Hs. cbn [safe_b] in Hs. rewrite Hr in Hs. cbn [gen GenTok.gent]. rewrite Hr. apply Hl. exact Hs.
+Qed.
+
+Lemma lg_uminus v l r : is_nil r = true -> LG l -> LG (Node MINUS v l r).
+Proof.
+  intros Hr Hl Hs. cbn [safe_b] in Hs. rewrite Hr in Hs.
+  apply andb_prop in Hs. destruct Hs as [Hs Hc]. apply andb_prop in Hs. destruct Hs as [Hsl _].
+  cbn [gen GenTok.gent]. rewrite Hr. unfold minus_unary_code. rewrite Sminus.
+  apply lxp_neg; [eapply lxp_open; apply lxp_wrap; apply Hl; exact Hsl|].
+  intros HC. destruct (paren_unary_minus p l); cbn [wrap parens]; [reflexivity|].
+  rewrite HC in Hc. cbn in Hc. apply negb_true_iff in Hc. rewrite starts_hd in Hc. exact Hc.
+Qed.
+
+Lemma lg_not v l r : is_C L = true -> LG l -> LG (Node NOT v l r).
+Proof.
+  intros HC Hl Hs. cbn [safe_b] in Hs. fl_in Hs. rewrite HC in Hs.
+  apply andb_prop in Hs. destruct Hs as [Hsl _].
+  cbn [gen GenTok.gent]. fl. rewrite HC, Snot, HC. apply lxp_not; [exact HC|apply Hl; exact Hsl].
+Qed.
+
+Lemma lg_power v l r : LG l -> LG r -> LG (Node POWER v l r).
+Proof.
+  intros Hl Hr Hs. cbn [safe_b] in Hs.
+  apply andb_prop in Hs. destruct Hs as [Hs _]. apply andb_prop in Hs. destruct Hs as [_ Hs].
+  apply andb_prop in Hs. destruct Hs as [Hsl Hsr].
+  cbn [gen GenTok.gent]. fl. cbn [str_is_empty negb]. rewrite andb_false_r.
+  destruct (text_is_number (gen p r) 1 2).
+  - eapply lxp_open. apply lxp_call1; [apply Vsqrt|apply Hl; exact Hsl].
+  - eapply lxp_open. apply lxp_call2; [apply Vpow|apply Hl; exact Hsl|apply Hr; exact Hsr].
+Qed.
+
+Lemma lxp_slash cl1 s1 ts1 cl2 s2 ts2 :
+  LXP cl1 s1 ts1 -> LXP cl2 s2 ts2 -> LXP cl2 (s1 ++ "/" ++ s2) (ts1 ++ TSlash :: ts2).
+Proof.
+  intros A B. eapply lxp_binop with (hc := fun _ => true); [exact A|exact B|discriminate|reflexivity|reflexivity| |].
+  - intros c X _. apply lex_slash.
+  - destruct B as (Bh & _ & _). destruct s2 as [|c s2']; [discriminate|]. exists c, s2'. split; reflexivity.
+Qed.
+
+Lemma lg_root v l r : LG l -> LG r -> LG (left_of l) -> LG (Node ROOT v l r).
+Proof.
+  intros Hl Hr Hd Hs. cbn [safe_b] in Hs. cbn [gen GenTok.gent]. destruct (is_nil r) eqn:Er.
+  - eapply lxp_open. apply lxp_call1; [apply Vsqrt|apply Hl; exact Hs].
+  - destruct l as [|tl vl d rl]; [discriminate|]. destruct tl; try discriminate. cbn [left_of] in *.
+    apply andb_prop in Hs. destruct Hs as [Hs _]. apply andb_prop in Hs. destruct Hs as [Hs _].
+    apply andb_prop in Hs. destruct Hs as [Hs Hsr]. apply andb_prop in Hs. destruct Hs as [_ Hsd].
+    change (gen p (Node DEGREE vl d rl)) with (gen p d).
+    change (GenTok.gent L p (Node DEGREE vl d rl)) with (gent d).
+    destruct (text_is_number (gen p d) 2 1).
+    + eapply lxp_open. apply (lxp_call1 L (square_root_string p) (gen p r) (gent r)); [apply Vsqrt|apply Hr; exact Hsr].
+    + fl. unfold operator_code. rewrite Sdivide.
+      change (paren_left p DIVIDE (Node CN "1.0" Null Null) d) with false. cbn [wrap].
+      fold one_ast.
+      change (TId (power_string p) :: TLp :: gent r ++ TComma :: TNum "1.0" :: TSlash
+                :: wrapt (paren_right p DIVIDE one_ast d (gen p d)) (gent d) ++ [TRp])
+        with (call2t (power_string p) (gent r)
+                ([TNum "1.0"] ++ TSlash :: wrapt (paren_right p DIVIDE one_ast d (gen p d)) (gent d))).
+      eapply lxp_open.
+      apply (lxp_call2 L (power_string p) (gen p r) (gent r)
+               ("1.0" ++ "/" ++ wrap (paren_right p DIVIDE one_ast d (gen p d)) (gen p d)));
+        [apply Vpow|apply Hr; exact Hsr|].
+      eapply lxp_open. eapply lxp_slash; [apply lxp_num; reflexivity|apply lxp_wrap; apply Hd; exact Hsd].
+Qed.
+
+Lemma lg_log v l r : LG l -> LG r -> LG (left_of l) -> LG (Node LOG v l r).
+Proof.
+  intros Hl Hr Hb Hs. cbn [safe_b] in Hs. cbn [gen GenTok.gent]. destruct (is_nil r) eqn:Er.
+  - eapply lxp_open. apply lxp_call1; [apply Vlog10|apply Hl; exact Hs].
+  - destruct l as [|tl vl b rl]; [discriminate|]. destruct tl; try discriminate. cbn [left_of] in *.
+    apply andb_prop in Hs. destruct Hs as [Hs _]. apply andb_prop in Hs. destruct Hs as [Hsb Hsr].
+    change (gen p (Node LOGBASE vl b rl)) with (gen p b).
+    change (GenTok.gent L p (Node LOGBASE vl b rl)) with (gent b).
+    destruct (text_is_number (gen p b) 10 1).
+    + eapply lxp_open. apply (lxp_call1 L (common_logarithm_string p) (gen p r) (gent r)); [apply Vlog10|apply Hr; exact Hsr].
+    + replace (natural_logarithm_string p ++ "(" ++ gen p r ++ ")/" ++ natural_logarithm_string p ++ "(" ++ gen p b ++ ")")
+        with ((natural_logarithm_string p ++ "(" ++ gen p r ++ ")") ++ "/" ++ (natural_logarithm_string p ++ "(" ++ gen p b ++ ")"))
+        by (rewrite !sapp_assoc; reflexivity).
+      eapply lxp_open. eapply lxp_slash; (apply lxp_call1; [apply Vln|auto]).
+Qed.
+
+(* one piece "value if condition" followed by the else part *)
+Definition piece_text (vv cc : string) : string := piecewise_if_code p cc vv.
+Definition piece_toks (vv cc : list token) : list token :=
+  if is_C L then TLp :: cc ++ TRp :: TQuest :: vv else (vv ++ TIf :: cc)%list.
+
+Lemma lxp_cond V vt C ct E et :
+  LXP false V vt -> LXP false C ct -> LXP false E et ->
+  LXP false (piece_text V C ++ piecewise_else_code p E) (piece_toks vt ct ++ else_tok L :: et).
+Proof.
+  intros (V1 & V2 & V3) (C1 & C2 & C3) (E1 & E2 & E3).
+  unfold piece_text, piece_toks, else_tok, piecewise_if_code, piecewise_else_code. fl. rewrite Sif, Selse.
+  destruct (is_C L) eqn:EC.
+  - rewrite (if_code_C _ _ C2), else_code_C. split; [reflexivity|split].
+    + rewrite !nb_app, C2, V2, E2. reflexivity.
+    + intros rest Hr. rewrite !sapp_assoc. rewrite lex_lp. rewrite C3 by (right; reflexivity).
+      change (")?" ++ V ++ ":" ++ E ++ rest) with (")" ++ "?" ++ V ++ ":" ++ E ++ rest).
+      rewrite lex_rp, (lex_quest L _ EC). rewrite V3 by (right; reflexivity).
+      rewrite lex_colon. rewrite (E3 _ Hr).
+      rewrite !ocons_oapp, !oapp_assoc. cbn [app]. rewrite <- !app_assoc. reflexivity.
+  - rewrite if_code_Py, else_code_Py. split; [apply head_ok_app; apply head_ok_app; exact V1|split].
+    + rewrite !nb_app, C2, V2, E2. reflexivity.
+    + intros rest Hr. rewrite !sapp_assoc. rewrite V3 by (right; reflexivity).
+      rewrite lex_if. rewrite C3 by (right; reflexivity). rewrite lex_else. rewrite (E3 _ Hr).
+      rewrite !ocons_oapp, !oapp_assoc. cbn [app]. rewrite <- !app_assoc. reflexivity.
+Qed.
+
+Lemma gen_piecewise v vl v1 c1 r :
+  gen p (Node PIECEWISE v (Node PIECE vl v1 c1) r) =
+  piece_text (gen p v1) (gen p c1) ++
+  piecewise_else_code p
+    (match r with
+     | Null => nan_string p
+     | Node PIECE _ v2 c2 => piece_text (gen p v2) (gen p c2) ++ piecewise_else_code p (nan_string p)
+     | _ => gen p r
+     end).
+Proof. destruct r as [|t0 v0 l0 r0]; [reflexivity|destruct t0; reflexivity]. Qed.
+
+Lemma gent_piecewise v vl v1 c1 r :
+  gent (Node PIECEWISE v (Node PIECE vl v1 c1) r) =
+  (piece_toks (gent v1) (gent c1) ++ else_tok L ::
+   match r with
+   | Null => nan_toks p
+   | Node PIECE _ v2 c2 => piece_toks (gent v2) (gent c2) ++ else_tok L :: nan_toks p
+   | _ => gent r
+   end)%list.
+Proof. destruct r as [|t0 v0 l0 r0]; [reflexivity|destruct t0; reflexivity]. Qed.
+
+Lemma lg_piecewise v l r :
+  LG (left_of l) -> LG (right_of l) -> LG r -> LG (left_of r) -> LG (right_of r) -> LG (Node PIECEWISE v l r).
+Proof.
+  intros Hv1 Hc1 Hr Hlr Hrr Hs.
+  destruct l as [|tl vl v1 c1]; [discriminate|]. destruct tl; try discriminate.
+  cbn [left_of right_of] in *. cbn [safe_b] in Hs.
+  apply andb_prop in Hs. destruct Hs as [Hs Hels]. apply andb_prop in Hs. destruct Hs as [Hs _].
+  apply andb_prop in Hs. destruct Hs as [Hsv Hsc].
+  assert (NanX : LXP false (nan_string p) (nan_toks p)) by (apply lxp_ident; apply Vnan).
+  rewrite gen_piecewise, gent_piecewise.
+  apply lxp_cond; [apply Hv1; exact Hsv|apply Hc1; exact Hsc|].
+  destruct r as [|tr0 vr lr rr]; [exact NanX|].
+  cbn [left_of right_of] in *.
+  destruct tr0; try (apply Hr; exact Hels).
+  - (* a last PIECE *)
+    apply andb_prop in Hels. destruct Hels as [Hels _]. apply andb_prop in Hels. destruct Hels as [Hs2v Hs2c].
+    apply lxp_cond; [apply Hlr; exact Hs2v|apply Hrr; exact Hs2c|exact NanX].
+  - (* OTHERWISE x *)
+    change (gen p (Node OTHERWISE vr lr rr)) with (gen p lr).
+    change (GenTok.gent L p (Node OTHERWISE vr lr rr)) with (gent lr).
+    apply Hlr. exact Hels.
+Qed.
+
+Theorem lex_all a : LG a /\ LG (left_of a) /\ LG (right_of a).
+Proof.
+  induction a as [|t v l IHl r IHr].
+  - split; [|split]; intros H0; discriminate H0.
+  - destruct IHl as (Ql & Qll & Qrl). destruct IHr as (Qr & Qlr & Qrr).
+    split; [|split; [exact Ql|exact Qr]].
+    destruct (is_C L) eqn:EC;
+    destruct t;
+      first
+        [ apply lg_unsafe; reflexivity
+        | apply lg_ci | apply lg_cn
+        | apply lg_power; assumption
+        | apply lg_root; assumption
+        | apply lg_log; assumption
+        | apply lg_piecewise; assumption
+        | apply lg_not; assumption
+        | (eapply lg_fun1; [cbn; fl; rewrite ?EC; reflexivity|assumption])
+        | (eapply lg_fun2; [cbn; fl; rewrite ?EC; reflexivity|assumption|assumption])
+        | (intros _; cbn [gen GenTok.gent]; apply lxp_num; first [apply Ntrue|apply Nfalse|apply Ne|apply Npi])
+        | (intros _; cbn [gen GenTok.gent]; apply lxp_ident; first [apply Vinf|apply Vnan])
+        | (destruct (is_nil r) eqn:Er;
+           [ first [apply lg_uplus; assumption | apply lg_uminus; assumption
+                   | apply lg_unsafe; cbn [safe_b]; fl; rewrite ?EC;
+                     destruct r; [cbn [safe_b]; rewrite andb_false_r; reflexivity|discriminate Er] ]
+           | eapply lg_infix; [cbn; fl; rewrite ?EC; reflexivity|exact Er|assumption|assumption] ])
+        ].
 Qed.
 
 End MainLex.
+
+Theorem lex_gen_C a :
+  safe_b LC profile_C a = true -> lex LC (gen profile_C a) = Some (gent LC profile_C a).
+Proof.
+  intros Hs. destruct (lex_all LC profile_C flags_C strings_C a) as (H & _ & _).
+  destruct (H Hs) as (_ & _ & H3). specialize (H3 "" (or_intror I)).
+  rewrite sapp_nil_r in H3. unfold lex. rewrite H3. cbn. rewrite app_nil_r. reflexivity.
+Qed.
+
+Theorem lex_gen_Py a :
+  safe_b LPy profile_Py a = true -> lex LPy (gen profile_Py a) = Some (gent LPy profile_Py a).
+Proof.
+  intros Hs. destruct (lex_all LPy profile_Py flags_Py strings_Py a) as (H & _ & _).
+  destruct (H Hs) as (_ & _ & H3). specialize (H3 "" (or_intror I)).
+  rewrite sapp_nil_r in H3. unfold lex. rewrite H3. cbn. rewrite app_nil_r. reflexivity.
+Qed.
